@@ -261,7 +261,9 @@ CHECKS["C16"] = dict(
           "(a complete message with a fresh sequence counter is returned after any history, including truncated first and "
           "continuation frames). " + _REPLAY + "Three real decoders are alive at once (the third receives traffic and garbage of its "
           "own between the steps); bad inputs are drawn from eight kinds across all five input formats; every behaviour is replayed "
-          "twice on fresh objects and the two records must be identical; constructor arguments are checked for mutation."),
+          "twice on fresh objects and the two records must be identical; constructor arguments are checked for mutation; decoders "
+          "whose preferences name the same quantities in other units (created before, after, alive together) must return what the "
+          "same decoder returns alone in a fresh process."),
     note="Trusted: as C10. 'Rejected or ignored': a bad input may raise or return None, never a message, and never change later results.",
     design="5/C16",
     technique="TLA+ model of decoder instances with bad and truncated inputs model-checked by TLC; replayed behaviours validated by TLC, replay determinism",
@@ -322,16 +324,16 @@ ROUTES = {
     "C05": "identifiers whose address bytes look like framing bytes (0xAA, 0x55, CR, LF) through the receive paths of the real clients. One encoder serves the three packet formats in turn.",
     "C06": "a second history pass with a decoder that also writes a dump file and gets the binary packets as mutable buffers.",
     "C07": "network-map decoders past their discovery window across all nine renderings (the time stamps in the text formats are far from the wall clock). One decoder receives all nine renderings of a message, in an order that changes from message to message.",
-    "C09": "the base request of every definition through the three packet-producing encode routes. Every other request is made by exchanging the field object of a message that has been encoded and queried once; a field exchanged for one with another id is a missing field.",
+    "C09": "the base request of every definition through the three packet-producing encode routes. Every other request is made by exchanging the field object of a message that has been encoded and queried once; a field exchanged for one with another id is a missing field. The last three results of every long-lived encoder are read again after each later call (they belong to the caller).",
     "C10": "directed histories delivered in one input format from the first step to the last, per format. The filtered decoder of every history is the second instance built from the same argument objects (lists with duplicate entries); whole messages of the fast-packet PGN are inputs of the model and of the replay.",
     "C11": "claim / data histories through the four real clients built with the configuration's options, the link replaced at a chosen step (replay_through_client; a lost link is a stuttering step of the decoder model).",
-    "C12": "clients built with options (network map, units, filters, manufacturer list, dump file; the reference decoder gets the same), the link replaced between two parts of the traffic, the receive callback registered after connect() or replaced while idle; identity of a delivery includes hash, source identity and units. Callbacks are handed over as coroutine functions, objects with async __call__, wrappers and partials (rotating per session); every third session has a second client of the same kind in the process; intact packets containing the start marker are part of the clean streams.",
+    "C12": "clients built with options (network map, units, filters, manufacturer list, dump file; the reference decoder gets the same), the link replaced between two parts of the traffic, the receive callback registered after connect() or replaced while idle; identity of a delivery includes hash, source identity and units. Callbacks are handed over as coroutine functions, objects with async __call__, wrappers and partials (rotating per session); every third session has a second client of the same kind in the process; intact packets containing the start marker are part of the clean streams; option sets that exclude the address claim by number (the decoder still learns names from it).",
     "C13": "clients built with network mapping on (they send their own requests after every connection) under faults next to those requests. Callbacks rotate through four forms; every fourth session has an unobserved second client (another kind) that is refused, connects, reads and loses its link all the time.",
     "C14": "close() called twice (the second inside the first's notification) and a first close() abandoned by its caller. Every third close session leaves the client through its async context manager instead of calling close().",
     "C15": "messages obtained through decode_tcp / decode_usb from bytes and from mutable buffers, fast messages frame by frame. The command line (decode --frame, encode --frame) is one more route; dump sessions include address claims and are closed by close() or by leaving the with-block.",
     "C17": "the same payloads as delivered by the four real clients built with network mapping on and off. Decoders that also write a dump file (mapping off and on) are part of every group.",
     "C18": "the same preferences in decoders that also write a dump file (of everything / of other PGNs only). Fast-packet and single-frame messages also arrive frame by frame (EByte packets) at the preference decoders.",
-    "C19": "unsendable messages handed to a client that was never connected. Clients built with network mapping on: their own three requests fall due while a multi-frame message is stalled (they are calls like any other).",
+    "C19": "unsendable messages handed to a client that was never connected. Clients built with network mapping on: their own three requests fall due while a multi-frame message is stalled (they are calls like any other). Near-repetitions one after the other (raw value of a lookup only; a one-frame fast-packet message twice).",
     "C20": "periods in which no receive callback is registered (what the client holds back stays bounded; packets complete meanwhile are nobody's). Every third session has a second serial client in the process reading its own packets in 7-byte pieces.",
 }
 
